@@ -117,20 +117,26 @@ where
         let mut this = self.project();
         let mut sink = this.sink.as_mut();
 
-        ready!(sink.as_mut().poll_close(cx))?;
+        // All pending blocks are written before the EOF marker, and the EOF marker is written
+        // before the inner writer is shut down. Afterward, a socket or pipe rejects it, and a
+        // buffered writer never flushes it.
+        ready!(sink.as_mut().poll_flush(cx))?;
 
-        let mut inner = sink.get_mut().get_mut().get_mut();
+        {
+            let mut inner = sink.as_mut().get_mut().get_mut().get_mut();
 
-        while this.eof_buf.has_remaining() {
-            let bytes_written = ready!(Pin::new(&mut inner).poll_write(cx, this.eof_buf.chunk()))?;
+            while this.eof_buf.has_remaining() {
+                let bytes_written =
+                    ready!(Pin::new(&mut inner).poll_write(cx, this.eof_buf.chunk()))?;
 
-            this.eof_buf.advance(bytes_written);
+                this.eof_buf.advance(bytes_written);
 
-            if bytes_written == 0 {
-                return Poll::Ready(Err(io::Error::from(io::ErrorKind::WriteZero)));
+                if bytes_written == 0 {
+                    return Poll::Ready(Err(io::Error::from(io::ErrorKind::WriteZero)));
+                }
             }
         }
 
-        Poll::Ready(Ok(()))
+        sink.poll_close(cx)
     }
 }
